@@ -4,6 +4,6 @@ go 1.20
 
 require github.com/fiorix/go-diameter/v4 v4.0.0
 
-require github.com/ishidawataru/sctp v0.0.0-20230406120618-7ff4192f6ff2 // indirect
+require github.com/ishidawataru/sctp v0.0.0-20230406120618-7ff4192f6ff2
 
 replace github.com/fiorix/go-diameter/v4 => /repo
